@@ -32,7 +32,7 @@ PROPS = {
                 frags=[("unroll", 600, 15000), ("eval", 800, 15000)], rule="quantifiers over list paths of generated data, four binding modes, names colliding with the collection path / top-level fields; compared with the unrolled or/and chain on the real code"),
     "C07": dict(title="selector spellings interchangeable", level="proof", lean=[], theorems={},
                 frags=[("spelling", 500, 12000), ("parse-deriv", 300, 6000)], rule="expressions whose paths are spellable both ways, rendered all-dotted/bracket, all-pointer and mixed"),
-    "C08": dict(title="hidden fields unobservable", level="proof", lean=[], theorems={},
+    "C08": dict(title="hidden fields unobservable", level="proof", lean=['Props.C08'], theorems={},
                 frags=[("hidden", 500, 12000)], rule="pairs of data equal on visible fields (hidden = unexported or tagged '-' under the active tag name), expressions naming hidden fields; both tag names; filter positions"),
     "C09": dict(title="Evaluate is total", level="proof", lean=['Props.C09', 'Props.C03', 'Ties.EvaluateShape', 'Ties.Dispatch'], theorems={},
                 frags=[("matrix", 300, 15000), ("eval", 1500, 40000)], rule="complete operator x value-shape matrix (every reflect kind incl. invalid, nil/odd elements in containers) x 3 placements, plus random nesting"),
@@ -44,7 +44,7 @@ PROPS = {
                 rule="k goroutines on one evaluator/filter under the Go race detector, first use and steady state; results compared with the sequential run"),
     "C13": dict(title="purity / history independence", level="proof", lean=['Props.C13', 'Ties.Effects'], theorems={},
                 frags=[("hist", 150, 5000)], rule="histories of 2..8 calls on one evaluator (data, errors, matches mixed), each compared with a fresh evaluator; datum snapshot before/after; Expression()"),
-    "C14": dict(title="determinism under map order", level="proof", lean=[], theorems={},
+    "C14": dict(title="determinism under map order", level="proof", lean=['Props.C14'], theorems={},
                 frags=[("det", 150, 3000)], rule="quantifiers/filters over maps of 2..8 entries with mixed T/F/E elements, each evaluated 41 times"),
     "C15": dict(title="parser accepts exactly the language", level="proof", lean=[], theorems={},
                 frags=[("parse-tokens", 1500, 100000), ("parse-deriv", 800, 30000), ("parse-bytes", 500, 20000)], rule="exhaustive token sequences up to k (k=2 quick, 3 thorough) with/without blanks; random derivations with token mutations; result incl. AST and step count compared with the model engine on the regenerated table"),
